@@ -89,6 +89,8 @@ class Acc(object):
         self.inconclusive = 0
         self.extra = collections.Counter()
         self._known = known_index(prop)
+        self._per_label = {}
+        self._next_sample = 5
 
     # -- cases
     def case(self, key=None, nontrivial=False, sample=None, label=None, enumerated=False):
@@ -100,9 +102,13 @@ class Acc(object):
                 self.nontrivial.add(key if isinstance(key, str) and len(key) <= 16 else h(key))
         if label is not None:
             self.classes[label] += 1
-        if sample is not None and len(self.samples) < self.MAX_SAMPLES and \
-                (nontrivial or len(self.samples) < 2):
-            self.samples.append(sample)
+        if sample is not None and nontrivial and len(self.samples) < self.MAX_SAMPLES:
+            # spread the samples over the run and over the labels (deterministic strides)
+            k = self._per_label.get(label, 0)
+            if k < 3 and self.evaluations >= self._next_sample:
+                self.samples.append(sample)
+                self._per_label[label] = k + 1
+                self._next_sample = self.evaluations + 1 + self.evaluations // 2
 
     def label(self, *labels):
         for l in labels:
